@@ -178,8 +178,8 @@ Print Assumptions C16_pinned_dollar_zero_refuted.
 Example C16_nonvacuous :
   let t := "SELECT 'a\'$1' AS x, ""q$2"", `c$2`, $1 AS v FROM t WHERE n = $2 AND m IN ($1,-1.5e-3) /* $3 */ -- $4" in
   wf_templateb t = true /\
-  lex_placeholders t = [(37%nat, 1%Z); (60%nat, 2%Z); (73%nat, 1%Z)] /\
-  mysql_placeholder_offsets t = [37%nat; 60%nat; 73%nat] /\
+  lex_placeholders t = [(35%nat, 1%Z); (60%nat, 2%Z); (73%nat, 1%Z)] /\
+  mysql_placeholder_offsets t = [35%nat; 60%nat; 73%nat] /\
   sanitize_sql t [AStr "\' OR 1=1 -- "; AInt (-5)] =
     Ok "SELECT 'a\'$1' AS x, ""q$2"", `c$2`, '\\'' OR 1=1 -- ' AS v FROM t WHERE n = -5 AND m IN ('\\'' OR 1=1 -- ',-1.5e-3) /* $3 */ -- $4" /\
   mysql_scan_string (quote_string "\' OR 1=1 -- " ++ " AS v") = Some ("\' OR 1=1 -- ", " AS v") /\
